@@ -146,6 +146,7 @@ def own_values(sensor, n_extra, salt):
             vals.append(mix(salt, k) & ((1 << (8 * w)) - 1))
         return [v.to_bytes(w, "big") for v in dict.fromkeys(vals)]
     out = [bytes(w), b"\xff" * w, b"\x7f" + b"\xff" * (w - 1), b"\x80" + bytes(w - 1), b"\xff" * (w - 1) + b"\xfe",
+           b"\x80" + bytes(w - 2) + b"\x01", b"\xc0" + bytes(w - 1), b"\x80\x01" + bytes(w - 2),
            bytes(w - 1) + b"\x01", b"\x00" * (w - 2) + b"\xff\xff", b"\x00\x00" + b"\xff" * (w - 2)]
     if rs.type_name(sensor) == "Timestamp":
         out += [bytes((24, 2, 29, 23, 59, 59)), bytes((23, 2, 29, 0, 0, 0)), bytes((0, 1, 1, 0, 0, 0)), bytes((255, 12, 31, 23, 59, 59)),
